@@ -21,7 +21,6 @@ def first_word(s):
 
 KNOWN_CLASSES = [
     "nested-variable-checked-by-named-type-only",
-    "duplicate-field-inside-custom-scalar-object",
     "undefined-variable-inside-custom-scalar-object",
     "null-item-in-list-for-non-null-custom-scalar",
     "subscription-root-fields-counted-ignoring-type-conditions",
